@@ -86,7 +86,10 @@ class IDP(IdentityProvider):
 PW = ["pw", "pässwörd", "密码", "\U0001f600x", "a b", "p" * 40]
 
 
-def make_config(rng):
+CLEAR_STRATS = ["right", "right2", "wrong", "empty", "nonul", "nonul2", "nonul_extra", "short", "short_nul", "nul_junk", "only_nul"]
+
+
+def make_config(rng, focus=None):
     clear_table = [("carl", b"secret"), ("carl", "sëcret".encode()), ("dflt", b"dpw")]
     clear2_table = [("dora", b"hunter2"), ("carl", b"nope")]
     kinds = ["native", "clear", "nologin", "custom2", "clear2", "trust"]
@@ -94,6 +97,10 @@ def make_config(rng):
     kinds = kinds[: rng.randrange(1, 6)]
     if "native" not in kinds and rng.random() < 0.7:
         kinds.insert(rng.randrange(len(kinds) + 1), "native")
+    if focus == "clear":
+        # the clear-password plugin is consulted: as the default plugin (optimistic route) or after a switch
+        kinds = [k for k in kinds if k != "clear"]
+        kinds.insert(rng.choice([0, 0, len(kinds)]), "clear")
     plugins, lines = [], ["auth reset"]
     for k in kinds:
         if k == "native":
@@ -146,7 +153,9 @@ def reply_for(rng, strategy, plugin_name, data, user, meta):
         nonce = data.rstrip(b"\0")
         return native_resp(rng, strategy, nonce, meta)
     if plugin_name == "mysql_clear_password":
-        return {"right": b"secret\0", "right2": "sëcret".encode() + b"\0", "wrong": b"nope\0", "empty": b"", "nonul": b"secret"}.get(strategy, b"dpw\0")
+        return {"right": b"secret\0", "right2": "sëcret".encode() + b"\0", "wrong": b"nope\0", "empty": b"", "nonul": b"secret",
+                "nonul2": "sëcret".encode(), "nonul_extra": b"secretX", "short": b"secre", "short_nul": b"secre\0",
+                "nul_junk": b"secret\0junk", "only_nul": b"\0"}.get(strategy, b"dpw\0")
     if data == b"round1__________":
         return b"a" if strategy != "wrong" else b"x"
     if data == b"round2__________":
@@ -234,8 +243,8 @@ def reference_accept(users, user_key, plugins, exchange, meta):
     return False
 
 
-async def run_case(chk, rng, lines, impl, sha_lines, sha_impl):
-    plugins, users, cfg_lines, meta = make_config(rng)
+async def run_case(chk, rng, lines, impl, sha_lines, sha_impl, focus=None):
+    plugins, users, cfg_lines, meta = make_config(rng, focus)
     FakeSystemRandom.draws = []
     s = RawSession()
     srv = mkserver([s], identity_provider=IDP(plugins, users))
@@ -251,6 +260,11 @@ async def run_case(chk, rng, lines, impl, sha_lines, sha_impl):
     user_key = rng.choice(list(users) + ["mallory"])
     strategy = rng.choice(STRATS)
     announce = rng.choice([default_client or "", "mysql_native_password", "mysql_clear_password", "custom2_client", "bogus_plugin", ""])
+    if focus == "clear":
+        # the password as transmitted: terminated, unterminated (end of input terminates it), one byte more / less, junk after the NUL
+        user_key = rng.choice(["carl", "carl", "carl", "dflt"])
+        strategy = rng.choice(CLEAR_STRATS)
+        announce = rng.choice(["mysql_clear_password", "mysql_clear_password", "mysql_native_password", ""])
     draws_before = 0
 
     async def exchange(first_payload, seq0):
@@ -560,6 +574,8 @@ def main():
     async def go():
         for k in range(500 if not chk.thorough else 60000):
             await run_case(chk, rng, lines, impl, sha_lines, sha_impl)
+        for k in range(120 if not chk.thorough else 6000):
+            await run_case(chk, rng, lines, impl, sha_lines, sha_impl, focus="clear")
         for k in range(120 if not chk.thorough else 12000):
             await run_overlap(chk, rng, lines, impl)
         for k in range(150 if not chk.thorough else 8000):
